@@ -1,0 +1,19 @@
+//go:build verif
+
+package cache
+
+import "runtime"
+
+// VerifStopCleanup is a verification hook (build tag "verif" only): it stops the
+// background cleanup goroutine of a cache created with a cleanup interval, so
+// that such a cache can live inside a testing/synctest bubble and generated
+// caches do not leak ticking goroutines. The finalizer is cleared first:
+// otherwise, once the goroutine is gone, the collector would run stopCleanup,
+// which blocks forever on the unbuffered done channel.
+// It must be called at most once per cache.
+func (c *Cache[K, V]) VerifStopCleanup() {
+	if c.cleanupInt > 0 {
+		runtime.SetFinalizer(c.cache, nil)
+		c.done <- struct{}{}
+	}
+}
